@@ -2,7 +2,7 @@
 
 Static lockset + confinement analysis: schedule-independent by construction.
 """
-from ..core import (AnalysisBroken, Inliner, canon, strip, strip_load, last_member, must_pass, relpath,
+from ..core import (names_of, same_value, AnalysisBroken, Inliner, canon, strip, strip_load, last_member, must_pass, relpath,
                     norm_cond, walk, forward, lvalue_steps, lvalue_root, evloc)
 from ..analyses import (is_call, locksets, held, SIGBLOCK, lock_effect, callback_kind, path_to, describe)
 
@@ -351,7 +351,8 @@ def confinement(ctx):
                     continue
                 top = chain[-1]
                 b0 = strip(top['base'])
-                if top.get('record') == 'iv_state' and isinstance(b0, dict) and b0.get('k') == 'var' and b0['name'] in owners:
+                if top.get('record') == 'iv_state' and isinstance(b0, dict) and (
+                        (b0.get('k') == 'var' and b0['name'] in owners) or last_member(b0) == ('iv_event', 'owner')):
                     fields.setdefault(top['field'], []).append((kind, e, held(ls.get((b, i)))))
     if not fields:
         raise AnalysisBroken('iv_event_post: no access through the owner pointer found')
